@@ -7,8 +7,8 @@ git -C /repo worktree add --detach -f $wt $(cat /tmp/seedwork/BASE 2>/dev/null |
 git -C $wt apply "$patch" || { echo "PATCH-DOES-NOT-APPLY"; git -C /repo worktree remove --force $wt; exit 2; }
 # fixes committed to /repo after the agents' base commit are carried over (skipped with a note if they do not apply)
 if [ -f /tmp/seedwork/BASE ]; then git -C /repo diff $(cat /tmp/seedwork/BASE) HEAD -- src | git -C $wt apply 2>/dev/null || echo "NOTE: later fixes do not apply on top of this patch; running on the base commit"; fi
-cd /verif
+snap=/tmp/seedwork/vsnap_$$; rm -rf $snap; mkdir -p $snap; git -C /verif archive HEAD check mc known_findings.json properties.jsonl | tar -x -C $snap; mkdir -p $snap/out/logs; cd $snap
 VERIF_COBRA_SRC=$wt/src VERIF_ALLOW_SRC=1 VERIF_NO_RECHECK=${VERIF_NO_RECHECK:-1} timeout 3000 ./check $id $tier > /tmp/try_seed_${id}_$$.log 2>&1; rc=$?
-git -C /repo worktree remove --force $wt
+git -C /repo worktree remove --force $wt; cd /; rm -rf $snap
 grep -E "^VIOLATION|signature|^KNOWN|^C[0-9]+ |INTERNAL" /tmp/try_seed_${id}_$$.log | head -${LINES_MAX:-12}
 echo "check $id exit=$rc"
